@@ -20,6 +20,9 @@ EXPLANATION = (
 EXPLANATION += (  # round-3 supplement
     ' G3 also understands the arity gate written as an explicit length comparison with indexed checks (constant propagation), G4 the constructor test factored into a helper (let-else or match form) whose body is then checked for the name and GLOBAL-scope comparison.'
 )
+EXPLANATION += (
+    ' G11 the generic entry check_roto_type_reflect::<T> returns on every path the verdict of check_roto_type for the TypeId of T (no acceptance by name).'
+)
 ASSUMPTIONS = [
     "TypeId uniqueness and the TypeRegistry being keyed by TypeId (trusted)",
     "decides the gate's logic; ABI correctness of a call through a correctly typed handle is C05",
@@ -818,10 +821,51 @@ def rule_g10(F):
     return r
 
 
+def rule_g11(F):
+    """The gate decides by the identity of Rust types (TypeId), position by position, in check_roto_type.  The generic entry
+    check_roto_type_reflect::<T> that get_function and check_args go through has no verdict of its own: on every path its result is
+    the result of check_roto_type for TypeId-of-T.  (A shortcut that accepts when the *name* of T equals the Roto type's name hands
+    out `fn(Val<u32>) -> u32` for a `fn(u32) -> u32`: Val<T> reports its inner type's name.)"""
+    r = RuleResult("C04.G11", "check_roto_type_reflect has no verdict of its own: every exit returns the result of check_roto_type", floor=1)
+    ps = [p for p in F.paths() if p.endswith("check::check_roto_type_reflect") or p.endswith("::check_roto_type_reflect")]
+    if not ps:
+        r.missing("codegen::check::check_roto_type_reflect")
+        return r
+    for p in ps:
+        b = F.body(p)
+        if b is None or not b.mir:
+            continue
+        defs = mir.Defs(b)
+        core = {bi for bi, t in mir.calls(b) if hir.last(mir.callee(t) or "") == "check_roto_type"}
+        own = []
+        from_core = 0
+        for d in defs.defs.get(0, []):
+            if d[2] == "call":
+                if d[0] in core:
+                    from_core += 1
+                else:
+                    own.append((d[0], d[3].get("line"), "result of " + hir.last(mir.callee(d[3]) or "?")))
+            elif d[2] == "assign":
+                rv = d[3]["rv"]
+                srcs = set().union(*[mir.back_calls(b, defs, x) for x in mir.rv_locals(rv)]) if mir.rv_locals(rv) else set()
+                if srcs & core and rv["k"] in ("use", "cast"):
+                    from_core += 1
+                else:
+                    own.append((d[0], d[3].get("line"), "%s %s" % (rv["k"], rv.get("variant") or "")))
+        r.inst(hir.last(p), {"fn": p, "exits_returning_check_roto_type": from_core, "own_verdicts": [x[2] for x in own]})
+        if not core:
+            r.bad(p, "no call of check_roto_type", relfile(b.file), b.line, "check_roto_type_reflect no longer asks check_roto_type")
+        for bi, ln, what in own:
+            r.bad(p, "own verdict (%s)" % what.strip(), relfile(b.file), ln or b.line,
+                  "check_roto_type_reflect decides on its own (%s) instead of returning what check_roto_type says for the TypeId of the requested Rust type: a request can be "
+                  "accepted without the type identity having been compared" % what.strip())
+    return r
+
+
 def rules(ctx):
     F = ctx["F"]
     g5, lt = rule_g5(F)
-    return [rule_g1(F), rule_g2(F), rule_g3(F), rule_g4(F), g5, rule_g6(F), rule_g7(F, lt), rule_g9(F), rule_g10(F)]
+    return [rule_g1(F), rule_g2(F), rule_g3(F), rule_g4(F), g5, rule_g6(F), rule_g7(F, lt), rule_g9(F), rule_g10(F), rule_g11(F)]
 
 
 def thorough_rules(ctx):
